@@ -111,7 +111,10 @@ def make(name, **over):
         return E.MMST(generator=g["SplitRandomGenerator"](num_nodes=6, num_edges=8, max_degree=3, num_agents=2, num_nodes_per_agent=2,
                                                          max_step=ms if ms is not None else (T if T is not None else 5)), **tl(), **over)
     if base == "MultiCVRP":
-        return E.MultiCVRP(generator=g["MCGen"](num_customers=6, num_vehicles=2), **over)
+        import re
+        m = re.match(r"N(\d+)V(\d+)", var or "")
+        nc, nv = (int(m.group(1)), int(m.group(2))) if m else (6, 2)
+        return E.MultiCVRP(generator=g["MCGen"](num_customers=nc, num_vehicles=nv), **over)
     if base == "PacMan":
         return E.PacMan(generator=g["AsciiGenerator"](PACMAN_MAZE), **({"time_limit": T} if T is not None else {}), **over)
     if base == "RobotWarehouse":
